@@ -10,6 +10,9 @@ drives the REAL `scheDisp` + run service with 10-16 real mailboxes on it).
   sd selfpost mb=<m> msg=<id>               -> ran=<ids> off=<n> maxconc=<n> blk=<n> sent=<0|1>
                                                (the handler that occupies the loop goroutine posts; sent=0: no handler is
                                                waiting for commands — none executing, or it is blocked inside Schedule)
+  sd wait ms=<n>                            -> ran=<ids> off=<n> maxconc=<n> blk=<n>
+                                               (n ms of virtual time pass: the handler at its gate is a long one, posters
+                                               stay inside Schedule; `Schedule` has no deadline — nothing may change)
   sd end                                    -> undelivered=<n>
 
 `ran`: messages handed to their invoker during the step, in order; `off`: how many of
@@ -48,6 +51,10 @@ def sdStep (s : St) (ws : List String) : St × String :=
       let s' := selfPost s mb msg
       (s', obsOf s s' ++ s!" sent={if s.gateMb.isSome && !s.stuck then 1 else 0}")
     | _, _ => (s, "bad-op")
+  | "sd" :: "wait" :: _ =>
+    match kvNat ws "ms" with
+    | some ms => let s' := step s (.wait ms); (s', obsOf s s')
+    | none => (s, "bad-op")
   | "sd" :: "end" :: _ => (s, s!"undelivered={s.mq.length}")
   | _ => (s, "bad-op")
 
